@@ -71,6 +71,15 @@ let () = reg "replaycheck" (fun f ->
        else ok id "reexecution_differences_reported")
     else specfail id (Printf.sprintf "result_depends_on_%s:%s" f.(2) f.(3)))
 
+(* Pseudo stream implpanic (harness/cmd/run/common.go): a panic escaped the exec function of a stream -
+   the function under test is total, so the input is a specification failure.
+     implpanic id <stream,hexinput,...> <panic message> *)
+let () = reg "implpanic" (fun f ->
+    let id = f.(1) in
+    let enc = string_of_bytes (bytes_of_hex f.(2)) in
+    let stream = match String.index_opt enc ',' with Some i -> String.sub enc 0 i | None -> enc in
+    specfail id ("implementation_panicked_in_stream_" ^ stream))
+
 let () = reg "rx" (fun f ->
     (* rx id name subject implbool *)
     let id = f.(1) in
